@@ -1,7 +1,7 @@
 """C20 R-RW: the XML writer reads everything the XML reader stores, under the names the reader accepts."""
 from ..front import AnalysisBroken
 from ..facts import walk, calls, short
-from ..inline import expanded_fn
+from ..inline import expanded_fn, normalize_fn
 
 XW = "UTAP::XMLWriter"
 # methods the rules are stated about (never expanded into their callers) and the output primitives they look for
@@ -335,7 +335,8 @@ def run_label_guards(chk, F, rid="R-LABELGUARD"):
                   "conditions on that same FIELD (then-branches; never the else-branch of a test of another field)")
     n = 0
     for mname, owner in (("location", "UTAP::location_t"), ("labels", "UTAP::edge_t")):
-        fn = F.fn(XW + "::" + mname)
+        # normal form: a local lambda `exprLabel(kind, edge.guard, dy)` is put back as `if (!edge.guard.empty()) label(..)`
+        fn = normalize_fn(F.fn(XW + "::" + mname), F, stop=ANCHORS)
 
         def visit(node, guards):
             nonlocal n
@@ -344,6 +345,9 @@ def run_label_guards(chk, F, rid="R-LABELGUARD"):
                     visit(x, guards)
                 return
             if not isinstance(node, dict):
+                return
+            if node.get("k") == "inlined":
+                visit(node.get("body"), guards)
                 return
             if node.get("k") == "if":
                 cf = {m["name"] for m in walk(node["c"]) if m.get("k") == "member" and m.get("of") == owner}
